@@ -72,3 +72,16 @@ func (p *Pegnet) IsReplayTransaction(tx *sql.Tx, entryHash *factom.Bytes32) (boo
 	// If there is any result, then we know the transaction has been executed before and thus a replay.
 	return rows.Next(), nil
 }
+
+// IsTransactionRecorded returns true if the entry hash already has a row in
+// the transaction history. An entry that was put into holding (still pending)
+// or that was rejected has a history row but no relation rows yet, so
+// IsReplayTransaction alone does not recognise a second copy of it.
+func (p *Pegnet) IsTransactionRecorded(tx *sql.Tx, entryHash *factom.Bytes32) (bool, error) {
+	var count int
+	err := tx.QueryRow(`SELECT COUNT(*) FROM "pn_history_txbatch" WHERE "entry_hash" = ?;`, entryHash[:]).Scan(&count)
+	if err != nil {
+		return false, err
+	}
+	return count > 0, nil
+}
